@@ -56,7 +56,7 @@ def _build(op, nonmut, table_names, extra):
         if op['known'] and nm in exerciser.KNOWN_SHAPES:
             args = exerciser.known_args(r, nm)
         else:
-            args = exerciser.shapes(r, extra, table_names)
+            args = exerciser.shapes(r, extra, table_names, no_functions=nm in exerciser.KEYED)
         if first is not None:
             args = [first] + args[1:] if args else [first]
         return ['call', nm, args, gen.sugar(r, len(args))]
